@@ -193,3 +193,112 @@ def rand_schema(rng, valid=True):
         else:
             s["build"] = s["build"] + [("t", rng.choice(["YYYYMM", "%Y", "bogus", "", "yyyy"]))]
     return s
+
+
+# ---------------------------------------------------------------- decoding replies / RON text
+def _dec_json(t, i):
+    x = t[i]
+    if x == "jn":
+        return None, i + 1
+    if x == "jt":
+        return True, i + 1
+    if x == "jf":
+        return False, i + 1
+    if x.startswith("j#"):
+        return _json.loads(bytes.fromhex(x[3:]).decode()), i + 1
+    if x.startswith("j$"):
+        return bytes.fromhex(x[3:]).decode(), i + 1
+    if x.startswith("ja"):
+        n, out, i = int(x[2:]), [], i + 1
+        for _ in range(n):
+            v, i = _dec_json(t, i)
+            out.append(v)
+        return out, i
+    if x.startswith("jo"):
+        n, out, i = int(x[2:]), {}, i + 1
+        for _ in range(n):
+            k = bytes.fromhex(t[i][1:]).decode()
+            v, i = _dec_json(t, i + 1)
+            out[k] = v
+        return out, i
+    raise ValueError(x)
+
+
+def dec_zerv(tokens):
+    """tokens of 'Z ...' -> (schema dict, vars dict, next index)"""
+    assert tokens[0] == "Z", tokens[:3]
+    i = 1
+    s = {}
+    for part in ("core", "extra", "build"):
+        n = int(tokens[i]); i += 1
+        comps = []
+        for _ in range(n):
+            t = tokens[i]; i += 1
+            k, v = t[0], t[2:]
+            comps.append((k, int(v)) if k == "u" else (k, v) if k == "v" else (k, bytes.fromhex(v[1:]).decode()))
+        s[part] = comps
+    n = int(tokens[i]); i += 1
+    s["prec"] = tokens[i:i + n]; i += n
+    def num(x):
+        return None if x == "~" else int(x)
+    def st(x):
+        return None if x == "~" else bytes.fromhex(x[1:]).decode()
+    v = {}
+    for k in ("major", "minor", "patch", "epoch"):
+        v[k] = num(tokens[i]); i += 1
+    p = tokens[i]; i += 1
+    v["pre"] = None if p == "~" else (p.split("/")[0], num(p.split("/")[1]))
+    for k in ("post", "dev", "distance"):
+        v[k] = num(tokens[i]); i += 1
+    d = tokens[i]; i += 1
+    v["dirty"] = None if d == "~" else d == "1"
+    v["bumped_branch"] = st(tokens[i]); v["bumped_hash"] = st(tokens[i + 1]); v["bumped_ts"] = num(tokens[i + 2])
+    v["last_branch"] = st(tokens[i + 3]); v["last_hash"] = st(tokens[i + 4]); v["last_ts"] = num(tokens[i + 5]); v["last_tag"] = st(tokens[i + 6])
+    i += 7
+    v["custom"], i = _dec_json(tokens, i)
+    return s, v, i
+
+
+def ron_str(s):
+    out = ['"']
+    for ch in s:
+        if ch == '"':
+            out.append('\\"')
+        elif ch == "\\":
+            out.append("\\\\")
+        elif ch == "\n":
+            out.append("\\n")
+        elif ch == "\t":
+            out.append("\\t")
+        elif ch == "\r":
+            out.append("\\r")
+        elif ord(ch) < 32:
+            out.append("\\u{%x}" % ord(ch))
+        else:
+            out.append(ch)
+    out.append('"')
+    return "".join(out)
+
+
+def ron_comp(c):
+    k, v = c
+    if k == "s":
+        return "str(" + ron_str(v) + ")"
+    if k == "u":
+        return "uint(%d)" % v
+    if k == "v":
+        return "var(%s)" % v
+    if k == "c":
+        return "var(custom(" + ron_str(v) + "))"
+    if k == "t":
+        return "var(ts(" + ron_str(v) + "))"
+    raise ValueError(c)
+
+
+def ron_schema(s, with_prec=None):
+    parts = ["core: [" + ", ".join(ron_comp(c) for c in s["core"]) + "]",
+             "extra_core: [" + ", ".join(ron_comp(c) for c in s["extra"]) + "]",
+             "build: [" + ", ".join(ron_comp(c) for c in s["build"]) + "]"]
+    if "prec" in s:
+        parts.append("precedence_order: [" + ", ".join(s["prec"]) + "]")
+    return "(" + ", ".join(parts) + ")"
